@@ -448,6 +448,8 @@ Section MovingEv.
       Forall (fun x => In x U /\ rn (libref (db s)) <= bnum x) (redone ++ fresh) /\
       Inv s' (Fin ++ Fnew) S' /\ Ext s' (Fin ++ Fnew) /\
       ascending (rn (libref (db s))) Fnew /\ rn (libref (db s)) <= rn (libref (db s')) /\
+      libref (db s') = last (map bref Fnew) (libref (db s)) /\
+      (Fin <> [] -> undone = [] \/ kept <> []) /\
       StepKind s s' Fin Fnew S S' b.
 
   Lemma late_evs_nil b L' : late_evs b L' (if f_irr (c_filter cfg) then [] else []) [] = [].
@@ -460,7 +462,8 @@ Section MovingEv.
     intros HI HX Hl Hk. exists s', [], S, S, [], [], [], [].
     rewrite late_evs_nil, app_nil_r. cbn [undo_evs new_evs batch_events fresh_events length map app rev].
     split; [reflexivity|]. split; [reflexivity|]. split; [reflexivity|]. split; [reflexivity|].
-    split; [constructor|]. rewrite app_nil_r. split; [exact HI|]. split; [exact HX|]. split; [exact I|]. split; [rewrite Hl; lia | exact Hk].
+    split; [constructor|]. rewrite app_nil_r. split; [exact HI|]. split; [exact HX|]. split; [exact I|]. split; [rewrite Hl; lia|].
+    split; [exact Hl|]. split; [left; reflexivity | exact Hk].
   Qed.
 
   (* heights ascend along a parent-linked run of blocks of the universe *)
@@ -515,6 +518,24 @@ Section MovingEv.
   Proof.
     intros H. unfold cursor_lib, is_empty. destruct (N.eqb_spec (ri (last_lib_seen s')) 0); [contradiction|].
     rewrite andb_false_r. reflexivity.
+  Qed.
+
+  (* the last block of a non-empty final part is the LIB of the forkdb *)
+  Lemma inv_last_ref s Fin F t S : Inv s Fin S -> Fin = F ++ [t] -> bref t = libref (db s).
+  Proof.
+    intros [Hd Hfin Hl _] ->. rewrite rev_app_distr in Hl. cbn [rev app] in Hl.
+    apply Forall_app in Hfin as [_ Hfin]. pose proof (Forall_inv Hfin) as [HtU _].
+    destruct (di_coh U r0 _ Hd) as (_ & Hn & _). specialize (Hn t HtU Hl).
+    unfold bref. destruct (libref (db s)) as [i n]. cbn [ri rn] in *. congruence.
+  Qed.
+
+  Lemma inv_lib_last s' Fin Fnew S' L : Inv s' (Fin ++ Fnew) S' -> (Fnew = [] -> libref (db s') = L) ->
+    libref (db s') = last (map bref Fnew) L.
+  Proof.
+    intros HI H0. destruct Fnew as [|x0 F0] eqn:EF; [cbn [map last]; apply H0; reflexivity|]. rewrite <- EF in *.
+    destruct (@exists_last _ Fnew) as (F' & t & Et); [rewrite EF; discriminate|].
+    rewrite Et, map_app. cbn [map]. rewrite last_last. symmetry.
+    apply (inv_last_ref s' (Fin ++ Fnew) (Fin ++ F') t S' HI). rewrite Et, app_assoc. reflexivity.
   Qed.
 
   (* assembling a triggering step from its two halves *)
@@ -580,6 +601,12 @@ Section MovingEv.
       destruct Fnew as [|x F]; [exact I|]. pose proof (Forall_inv HFnew) as [H1 _]. cbn beta in H1. lia. }
     split.
     { destruct Hcase as [(_ & -> & _ & _)|(_ & Hgt & Hrn & _)]; [rewrite Hl3; lia | lia]. }
+    split.
+    { apply (inv_lib_last s' Fin Fnew _ _ HI'). intros HF.
+      destruct Hcase as [(_ & -> & _ & _)|(HFne & _)]; [exact Hl3 | contradiction]. }
+    split.
+    { intros HF. right. intros E. apply (f_equal (@rev block)) in E. rewrite rev_involutive in E. cbn [rev] in E.
+      apply app_eq_nil in E as [E _]. contradiction. }
     apply SkTrig; try assumption.
     - exists pP. exact Hc.
     - rewrite map_app, app_assoc, rev_app_distr. cbn [map rev app eb en]. eauto.
@@ -646,8 +673,201 @@ Section MovingEv.
       - intros _. rewrite keys_snoc, Hflast. apply in_or_app. right. left. exact Hid. }
     split; [cbn [ascending]; rewrite Hflast, (L_num b Hb Hid); split; [lia | exact I]|].
     split; [rewrite Hdbs2; cbn [new_db libref]; lia|].
+    split; [rewrite Hdbs2; cbn [new_db libref map last]; rewrite Hbr; exact Hflast|].
+    split; [left; reflexivity|].
     apply SkRoot; try assumption; try reflexivity.
     - rewrite Hdbs2. cbn [new_db store]. apply keys_snoc.
     - rewrite Hdbs2. reflexivity.
+  Qed.
+  Lemma step_ev s Fin S b : Inv s Fin S -> Ext s Fin -> In b U -> StepEv s Fin S b (fk_step cfg s b).
+  Proof.
+    intros HI HX Hb.
+    destruct (dropped s b) eqn:Hd.
+    { rewrite (fk_step_dropped U cfg U_id s b Hb Hd). apply stepev_quiet; auto. apply SkSame; auto. }
+    destruct (incl_first s b) eqn:Hni.
+    { apply step_root_ev; assumption. }
+    pose proof HI as [Hdb Hfin Hflast Hh]. pose proof Hdb as [Hnd HU Hcoh Hnum Hextra Hlc].
+    pose proof (di_wf U r0 U_id U_up _ Hdb) as Hwf.
+    destruct (find (bid b) (store (db s))) as [e|] eqn:Hf.
+    { rewrite (fk_step_old' U cfg U_id U_uniq s b e HU Hb Hf Hwf Hni). apply stepev_quiet; auto.
+      apply SkSame; auto. right. split; [exact Hni|]. apply find_is_some_in. eauto. }
+    (* a new block *)
+    pose proof (inv_add U r0 cfg s Fin S b HI Hb Hf Hni) as HI1.
+    set (s1 := with_db s (new_db (db s) b)) in *.
+    set (en := mkEntry b false).
+    assert (Hk : ~ In (bid b) (keys (store (db s)))) by (apply find_none; exact Hf).
+    assert (Hl1 : libref (db s1) = libref (db s)) by reflexivity.
+    assert (Hk1 : keys (store (db s1)) = keys (store (db s)) ++ [bid b]).
+    { unfold s1. cbn [with_db db new_db store]. apply keys_snoc. }
+    assert (HX1 : Ext s1 Fin).
+    { constructor; [exact (x_cur _ _ HX)|]. intros HF. rewrite Hl1, Hk1. apply in_or_app. left. exact (x_lib _ _ HX HF). }
+    assert (Hcur1 : cursor_lib s1 = libref (db s)) by exact (x_cur _ _ HX).
+    assert (Hsw : exists u r j, sw_of cfg s b = ScssOk u r j).
+    { unfold sw_of. destruct (f_undo (c_filter cfg) && triggers cfg s b); [|eauto].
+      destruct (last_sent s) as [ls|]; [apply scss_total; exact Hwf | eauto]. }
+    destruct Hsw as (undos & redos & junc & Hsw).
+    rewrite (fk_step_new' U r0 cfg U_id s b undos redos junc Hdb Hb Hf Hd Hni Hsw). cbv zeta. fold s1.
+    pose proof HI1 as [Hdb1 _ _ _]. pose proof Hdb1 as [Hnd1 HU1 _ Hnum1 _ _].
+    pose proof (di_wf U r0 U_id U_up _ Hdb1) as Hwf1.
+    change (new_db (db s) b) with (db s1).
+    destruct (rs_total (db s1) first Hwf1 (fuel_of (db s1)) (bid b) (bnum b) [] (enough_fuel_of _ _)) as [[longest reach] Hrs].
+    unfold reversible_segment. cbn [bref ri rn]. rewrite Hrs.
+    assert (Hfb : find (bid b) (store (db s1)) = Some en).
+    { unfold s1. cbn [with_db db new_db store]. apply (find_snoc_new (store (db s)) en). exact Hk. }
+    destruct (negb (triggers cfg s b) || match longest with [] => true | _ => false end) eqn:Hgo.
+    { apply stepev_quiet; auto. apply SkStored; auto.
+      apply orb_true_iff in Hgo as [Hgo|Hgo]; [left; apply negb_true_iff; exact Hgo|].
+      right. intros [pP HcP]. change (chain (store (db s1)) (bid b) (ri (libref (db s1))) (pP ++ [en])) in HcP.
+      pose proof (rs_chain_lib (db s1) first Hwf1 (di_lid U r0 _ Hdb1) Hnum1 (di_up U r0 _ Hdb1) (bid b) (pP ++ [en]) en HcP Hfb) as Hr.
+      unfold reversible_segment in Hr. cbn [ri rn eb en] in Hr. rewrite Hrs in Hr.
+      assert (Hne : pP ++ [en] <> []) by (destruct pP; discriminate). specialize (Hr Hne).
+      destruct longest; [|discriminate]. injection Hr as Hr _. rewrite map_app in Hr. destruct (map seg_of pP); discriminate. }
+    apply orb_false_iff in Hgo as [Htr Hlong]. apply negb_false_iff in Htr.
+    (* the chain of the new block *)
+    assert (Hshape : exists pP, chain (store (db s1)) (bid b) (ri (libref (db s1))) (pP ++ [en]) /\ longest = map seg_of (pP ++ [en])).
+    { destruct reach.
+      - apply rs_sound in Hrs.
+        2:{ intros e' He'. rewrite Hfb in He'. injection He' as <-. reflexivity. }
+        destruct Hrs as (p & Hc & Hp & _). rewrite app_nil_r in Hp.
+        destruct p as [|e' p' _] using rev_ind.
+        + subst longest. discriminate.
+        + destruct (chain_top _ _ _ _ _ Hc) as [Hf' _]. rewrite Hfb in Hf'. injection Hf' as <-.
+          exists p'. auto.
+      - apply (rs_false_nil cfg (db s1) (di_has_lib U r0 _ Hdb1)) in Hrs. subst longest. discriminate. }
+    destruct Hshape as (pP & Hc & ->).
+    destruct (chain_snoc_inv _ _ _ _ _ Hc) as (Hne1 & _ & HcP). cbn [eb en] in HcP.
+    assert (Hnin : ~ In en pP).
+    { pose proof (chain_nodup _ _ _ _ Hwf1 Hc) as Hn. unfold keys in Hn. rewrite map_app in Hn.
+      intros Hin. refine (nodup_app_disj _ _ (key en) Hn _ _); [apply in_map; exact Hin | left; reflexivity]. }
+    assert (HcP0 : chain (store (db s)) (bparent b) (ri (libref (db s))) pP).
+    { apply (chain_restrict (store (db s)) en); assumption. }
+    unfold sw_of in Hsw. rewrite Hundo, Htr in Hsw. cbn [andb] in Hsw.
+    destruct (last_sent s) as [hd|] eqn:Hls.
+    - destruct Hh as (HhU & pH & HcH & HS & HsH).
+      destruct (N.eq_dec (bid hd) (bparent b)) as [Heq|Hneq].
+      + unfold sent_chain_switch_segments in Hsw. rewrite Heq, N.eqb_refl in Hsw. injection Hsw as <- <- <-.
+        rewrite Heq in HcH. pose proof (chain_det _ _ _ _ _ HcH HcP0) as ->.
+        destruct (trigger_first_ev s1 Fin S b pP pP [] [] None None HI1 Hb Hc) as
+          (s3 & Rs & Ru & HR & Hrun & Happ & HI3 & Hk3 & Hls3 & Hlr3 & Hlls3).
+        * rewrite app_nil_r. reflexivity.
+        * exact HsH.
+        * rewrite app_nil_r. exact HS.
+        * destruct Rs; [|discriminate]. destruct Ru; [|discriminate].
+          cbn [rev filter] in Hrun. fold en in Hrun, Happ. rewrite Hrun. rewrite Hcur1 in *.
+          apply (step_finish_ev s Fin S b s3 pP pP [] [] []); auto.
+          -- rewrite app_nil_r. reflexivity.
+          -- rewrite app_nil_r. exact HS.
+          -- congruence.
+      + destruct (scss_link_j (db s) _ (bid hd) (bparent b) pH pP Hwf Hneq HcH HcP0) as (C & R & Uh & HP & HH & Hsc).
+        { intros f t e0 Hu He0. exact (tail_disjoint' U r0 cfg U_id U_up L_id (db s) pP (bparent b) Hdb HcP0 f t e0 Hu He0). }
+        rewrite Hsc in Hsw. injection Hsw as <- <- Hjunc.
+        rewrite (junction_moving s Fin S C Uh HI HX) in Hjunc.
+        destruct (trigger_first_ev s1 Fin S b pP C R Uh junc None HI1 Hb Hc HP) as
+          (s3 & Rs & Ru & HR & Hrun & Happ & HI3 & Hk3 & Hls3 & Hlr3 & Hlls3).
+        * rewrite HH in HsH. apply Forall_app in HsH. tauto.
+        * rewrite HS, HH. reflexivity.
+        * fold en in Hrun, Happ. rewrite Hrun. rewrite Hcur1, <- Hjunc in *.
+          apply (step_finish_ev s Fin S b s3 pP C Rs Ru Uh); auto.
+          -- rewrite HP, HR. reflexivity.
+          -- rewrite HS, HH. reflexivity.
+          -- congruence.
+    - injection Hsw as <- <- <-. destruct Hh as (-> & -> & Hall & _).
+      assert (Hfil : filter esent pP = []).
+      { assert (G : forall x, In x pP -> esent x = false).
+        { intros x Hx. apply Hall. eapply chain_in; [exact HcP0 | exact Hx]. }
+        clear -G. induction pP as [|h t IHt]; cbn [filter]; [reflexivity|].
+        rewrite (G h (or_introl eq_refl)). apply IHt. intros x Hx. apply G. right. exact Hx. }
+      destruct (trigger_first_ev s1 [] [] b pP [] pP [] None None HI1 Hb Hc eq_refl (Forall_nil _) eq_refl) as
+        (s3 & Rs & Ru & HR & Hrun & Happ & HI3 & Hk3 & Hls3 & Hlr3 & Hlls3).
+      cbn [rev] in Hrun. rewrite Hfil in Hrun. fold en in Hrun, Happ. rewrite Hrun. rewrite Hcur1 in *.
+      apply (step_finish_ev s [] [] b s3 pP [] Rs Ru []); auto.
+      congruence.
+  Qed.
+  (* ---------------------------------------------------------------- whole histories *)
+
+  (* as long as nothing is final the store holds exactly the blocks received (nothing was purged):
+     "a block carrying the starting LIB's id is stored" = "such a block was fed" *)
+  Definition LibRecv (s : fstate) (Fin : list block) (seen : list block) : Prop :=
+    Fin = [] -> lib_stored r0 s = lib_received r0 seen.
+
+  Lemma librecv_step s s' Fin Fnew S S' b seen : Inv s Fin S -> In b U -> StepKind s s' Fin Fnew S S' b ->
+    LibRecv s Fin seen -> LibRecv s' (Fin ++ Fnew) (b :: seen).
+  Proof.
+    intros HI Hb Hk Hlr HF. apply app_eq_nil in HF as [HF HFn]. specialize (Hlr HF).
+    apply bool_eq_iff. rewrite lib_stored_in, lib_received_in.
+    assert (Hold : In (ri r0) (keys (store (db s))) <-> exists x, In x seen /\ bid x = ri r0).
+    { rewrite <- lib_stored_in, <- lib_received_in, Hlr. tauto. }
+    assert (Hnw : forall s2, keys (store (db s2)) = keys (store (db s)) ++ [bid b] ->
+              (In (ri r0) (keys (store (db s2))) <-> exists x, In x (b :: seen) /\ bid x = ri r0)).
+    { intros s2 ->. rewrite in_app_iff, Hold. cbn [In]. split.
+      - intros [(x & Hx & E)|[E|[]]]; [exists x; auto | exists b; auto].
+      - intros (x & [<-|Hx] & E); [right; left; exact E | left; exists x; auto]. }
+    destruct Hk as [Hc -> _ _ | _ _ _ _ _ _ _ _ _ HFb | _ _ _ Hk' _ _ _ _ _ | _ _ _ _ _ _ _ Hcase].
+    - rewrite Hold. split.
+      + intros (x & Hx & E). exists x. split; [right; exact Hx | exact E].
+      + intros (x & [<-|Hx] & E); [|exists x; auto].
+        destruct Hc as [Hc|[_ Hc]].
+        * exfalso. unfold dropped in Hc. apply andb_true_iff in Hc as [Hc _]. apply N.ltb_lt in Hc.
+          pose proof (i_fin_last _ _ _ _ _ _ HI) as Hl. rewrite HF in Hl. cbn [rev] in Hl. rewrite Hl in Hc.
+          pose proof (L_num b Hb E). lia.
+        * apply Hold. rewrite <- E. exact Hc.
+    - subst Fnew. discriminate.
+    - apply Hnw. exact Hk'.
+    - destruct Hcase as [(_ & _ & _ & Hk')|(HFne & _)]; [apply Hnw; exact Hk' | contradiction].
+  Qed.
+
+  Lemma stepev_c04m s Fin S b seen res : StepEv s Fin S b res -> LibRecv s Fin seen ->
+    exists s' Fnew S' evs,
+      res = (s', evs, ROk) /\ Inv s' (Fin ++ Fnew) S' /\ Ext s' (Fin ++ Fnew) /\
+      StepKind s s' Fin Fnew S S' b /\
+      apply_all (ri r0) S evs = Some S' /\
+      c04m_step r0 (f_irr (c_filter cfg)) (lib_received r0 seen) (libref (db s)) S b evs (libref (db s')) S'.
+  Proof.
+    intros (s' & Fnew & S' & kept & undone & redone & fresh & stalled & Hres & HS & HS' & Happ & Hab & HI' & HX' & Hasc & Hmono & Hlast & Hjk & Hkind) Hlr.
+    assert (Hj : junction_of r0 (lib_stored r0 s) undone kept = junction_of r0 (lib_received r0 seen) undone kept).
+    { destruct Fin as [|x F]; [rewrite (Hlr eq_refl); reflexivity|].
+      destruct Hjk as [-> | Hk]; [discriminate | reflexivity|]. unfold junction_of.
+      destruct undone; [reflexivity|]. destruct kept; [congruence | reflexivity]. }
+    rewrite Hj in Hres, Happ.
+    assert (Happ' : apply_all (ri r0) S
+               (undo_evs (libref (db s)) b (junction_of r0 (lib_received r0 seen) undone kept) undone ++
+                new_evs (libref (db s)) b redone fresh ++
+                late_evs b (libref (db s')) (if f_irr (c_filter cfg) then Fnew else []) stalled) = Some S').
+    { rewrite app_assoc, (apply_all_app _ _ _ _ _ Happ). apply apply_all_inert. apply late_evs_inert. }
+    eexists s', Fnew, S', _. split; [exact Hres|]. split; [exact HI'|]. split; [exact HX'|]. split; [exact Hkind|].
+    split; [exact Happ'|].
+    exists kept, undone, redone, fresh, (if f_irr (c_filter cfg) then Fnew else []), stalled.
+    split; [exact HS|]. split; [exact HS'|]. split.
+    { unfold undo_evs, new_evs, late_evs. rewrite <- !app_assoc. reflexivity. }
+    split; [eapply Forall_impl; [|exact Hab]; cbn beta; tauto|].
+    split; [destruct (f_irr (c_filter cfg)); [exact Hasc | exact I]|].
+    split; [exact Hmono|].
+    split; [intros E; rewrite E; exact Hlast|].
+    split; [intros E; rewrite E; reflexivity|].
+    exact Happ'.
+  Qed.
+
+  Lemma run_ev : forall h s Fin S seen, Inv s Fin S -> Ext s Fin -> LibRecv s Fin seen ->
+    (forall b, In b h -> In b U) ->
+    c04m_run r0 (f_irr (c_filter cfg)) seen (libref (db s)) S h (fk_run cfg s h).
+  Proof.
+    induction h as [|b h IH]; intros s Fin S seen HI HX Hlr Hh; [exact I|].
+    assert (Hb : In b U) by (apply Hh; left; reflexivity).
+    destruct (stepev_c04m s Fin S b seen _ (step_ev s Fin S b HI HX Hb) Hlr)
+      as (s' & Fnew & S' & evs & Hstep & HI' & HX' & Hkind & _ & Hc04).
+    cbn [fk_run]. rewrite Hstep. cbn [c04m_run]. split; [reflexivity|].
+    exists (libref (db s')), S'. split; [exact Hc04|].
+    apply (IH s' (Fin ++ Fnew) S' (b :: seen) HI' HX'); [|intros x Hx; apply Hh; right; exact Hx].
+    exact (librecv_step s s' Fin Fnew S S' b seen HI Hb Hkind Hlr).
+  Qed.
+
+  Theorem moving_lib_events m h : rooted r0 m -> (forall b, In b h -> In b U) ->
+    c04m_run r0 (f_irr (c_filter cfg)) [] r0 [] h (fk_run cfg (fs_init m) h).
+  Proof.
+    intros Hm Hh.
+    assert (Hl : libref (db (fs_init m)) = r0) by (destruct Hm as [-> | ->]; reflexivity).
+    pose proof (run_ev h (fs_init m) [] [] [] (inv_init U r0 cfg L_id L_num L_up m Hm) (ext_init m Hm)) as H.
+    rewrite Hl in H. apply H; [|exact Hh].
+    intros _. destruct Hm as [-> | ->]; reflexivity.
   Qed.
 End MovingEv.
